@@ -21,6 +21,10 @@ FLOORS = {"quick": (20000, 200), "thorough": (400000, 1500)}
 
 
 def run(tier, seed, replay):
+    if replay is not None:
+        # a replay re-executes one case: the coverage floors do not apply
+        global FLOORS
+        FLOORS = {"quick": (1, 1), "thorough": (1, 1)}
     rep = vcommon.Report("C02", level="exploration",
                          rule="case = (function signature, ABI variant, direction, async flag, pointer width, value set); distinct = (flattened parameter shapes -> result shape) keys")
     _abiinterp.run_bin(rep, "c02", tier, seed, replay, timeout=900 if tier == "quick" else 3600, miri_shard=(tier == "thorough"))
